@@ -164,8 +164,12 @@ pub fn run_lines(p: &dyn Prop, lines: &[String], out_dir: &str, n_corpus: usize)
     let mut fails: Vec<(usize, String, String, String)> = Vec::new();
     let mut n_fail = 0u64;
     let mut samples: Vec<(String, String)> = Vec::new();
+    // index of the request being executed, on disk: if the process is killed by a signal (stack
+    // overflow, abort) ./check names that request (progress.txt, fixed width, overwritten in place)
+    let mut prog = std::fs::File::create(format!("{}/progress.txt", out_dir)).ok();
     for (i, line) in lines.iter().enumerate() {
         progress.store(i as u64, Ordering::SeqCst);
+        if let Some(f) = prog.as_mut() { use std::io::{Seek, SeekFrom}; let _ = f.seek(SeekFrom::Start(0)); let _ = writeln!(f, "{:<12}", i); }
         started.store((t0.elapsed().as_millis() as u64).max(1), Ordering::SeqCst);
         let reply = catch(|| p.exec(line));
         started.store(0, Ordering::SeqCst);
